@@ -325,6 +325,14 @@ Outcome ==
                     \cup F("C17.EvictedNeverSequenced", s.out = "")
                   ELSE {})
                  \cup F("C17.ExactlyOneOutcome", s.out = "")
+                 \* over HTTP: a submission that was admitted to the pool and is refused while
+                 \* that pool is still the current one of a running sequencer was evicted; its
+                 \* answer is the retry-later one (503 with Retry-After)
+                 \cup F("C17.RetryLaterAnswer",
+                        (e.http # 0 /\ ~isOk /\ e.sub \in Get(pool, i, {}) /\ ~I(i).stopped /\ I(i).up)
+                            => (e.http = 503 /\ e.retryAfter))
+                 \* and an HTTP answer is a success exactly when it carries an SCT
+                 \cup F("C17.HttpStatusMatchesOutcome", e.http # 0 => (isOk <=> e.http = 200))
        IN /\ subs' = [subs EXCEPT ![e.sub].out = IF isOk THEN "ok" ELSE e.class,
                                   ![e.sub].idx = e.idx, ![e.sub].ts = e.ts]
           /\ acks' = newAcks
